@@ -127,6 +127,18 @@ def main(argv=None):
             bounded_proc.kill()
             bounded_err = "bounded stand-in timed out"
     if bounded_proc is not None and bounded is None and not failing:
+        # an exception that was raised inside the code under test (innermost frame in the repository) and that the stand-in did not
+        # expect is a run-time contract that fired ("this operation completes"); anything else is a defect of the checker itself
+        frames = re.findall(r'File "([^"]+)", line \d+', bounded_err or "")
+        if frames and os.path.abspath(frames[-1]).startswith(os.path.abspath(REPO) + os.sep) and "Traceback" in (bounded_err or ""):
+            os.makedirs(os.path.join(HERE, "replays", pid), exist_ok=True)
+            rp = os.path.join("replays", pid, "bounded_crash.json")
+            with open(os.path.join(HERE, rp), "w") as f:
+                json.dump(dict(property=pid, obligation="bounded-stand-in:every operation of the explored histories completes or fails in a declared way",
+                               traceback=(bounded_err or "")[-3000:], repo=REPO), f, indent=1)
+            print("failed obligation: bounded-stand-in:an undeclared exception escaped from the code under test (%s)" % (bounded_err or "").strip().splitlines()[-1][:160])
+            print("VIOLATION property=%s replay=%s" % (pid, rp))
+            return 1
         print("checker error: bounded stand-in crashed:\n%s" % bounded_err)
         return 3
     if bounded_proc is not None and bounded is None:
